@@ -539,7 +539,9 @@ func c18WrapperCase(c *Ctx) *Result {
 			break
 		}
 		pb.SetReadDeadline(time.Now().Add(5 * time.Second))
-		buf := make([]byte, 2000)
+		// the reader's buffer is for the payload: exactly its size, a little more, or plenty
+		buf := make([]byte, pick(r, 2000, 2000, size, size, size+1, size+9, size+21, 65535))
+		params["last_reader_buffer"] = len(buf)
 		k, addr, err := wb.ReadFrom(buf)
 		res.Obs["datagrams_compared"]++
 		if err != nil {
